@@ -621,18 +621,23 @@ theorem edgeRecs_mixed (L : List (List (NodeRec P))) (M : List (List (EdgeRec P)
     | cons m ms ih => simp only [List.map_nil, List.nil_append] at ih ⊢; simp only [List.map_cons, edgeRecs, List.flatten_cons]; rw [ih]
   | cons l ls ih => simpa [edgeRecs] using ih
 
-theorem readAll_assemble [DecidableEq D] (c : Codec P B D) (g : Graph P) (shard : Nat) (ns es m) (v : Bool) :
-    readAll c (assemble c g shard ns es m).files v (assemble c g shard ns es m).manifest.files =
+theorem readAll_assemble_in [DecidableEq D] (c : Codec P B D) (g : Graph P) (shard : Nat) (ns es m) (v : Bool)
+    (dir : List (Path × B)) (hnd : (dir.map (fun f => f.1)).Nodup) (hsub : ∀ f ∈ (assemble c g shard ns es m).files, f ∈ dir) :
+    readAll c dir v (assemble c g shard ns es m).manifest.files =
       .ok ((shards shard (ns.map Node.toRec)).map Content.nodes ++ (shards shard (es.map Edge.toRec)).map Content.edges) := by
-  have hnd := assemble_paths_nodup c g shard ns es m
   rw [assemble_entries]
   apply readAll_append
   · apply readAll_entries c _ v hnd g.name .nodes _ 1
     · intro x hx; obtain ⟨_, _, rfl⟩ := List.mem_map.mp hx; rfl
-    · intro f hf; rw [assemble_files]; exact List.mem_append_left _ hf
+    · intro f hf; apply hsub; rw [assemble_files]; exact List.mem_append_left _ hf
   · apply readAll_entries c _ v hnd g.name .edges _ 1
     · intro x hx; obtain ⟨_, _, rfl⟩ := List.mem_map.mp hx; rfl
-    · intro f hf; rw [assemble_files]; exact List.mem_append_right _ hf
+    · intro f hf; apply hsub; rw [assemble_files]; exact List.mem_append_right _ hf
+
+theorem readAll_assemble [DecidableEq D] (c : Codec P B D) (g : Graph P) (shard : Nat) (ns es m) (v : Bool) :
+    readAll c (assemble c g shard ns es m).files v (assemble c g shard ns es m).manifest.files =
+      .ok ((shards shard (ns.map Node.toRec)).map Content.nodes ++ (shards shard (es.map Edge.toRec)).map Content.edges) :=
+  readAll_assemble_in c g shard ns es m v _ (assemble_paths_nodup c g shard ns es m) (fun _ h => h)
 
 /-! ### node creation -/
 
@@ -812,13 +817,40 @@ theorem hasDup_false_of_nodup : ∀ (l : List Nat), l.Nodup → hasDup l = false
 theorem toRec_ids (ns : List (Node P)) : (ns.map Node.toRec).map (fun r => r.id) = ns.map (fun n => n.id) := by
   rw [List.map_map]; rfl
 
-/-- `Load` of what `dumpGraph` assembled, into an empty target, for any creation counters -/
-theorem load_assemble [DecidableEq D] (c : Codec P B D) (g : Graph P) (shard batch : Nat)
+/-- the verification pass accepts what `dumpGraph` assembled, in any directory that holds its files -/
+theorem verify_assemble_in [DecidableEq D] (c : Codec P B D) (g : Graph P) (shard : Nat)
+    (ns : List (Node P)) (es : List (Edge P)) (m : Metrics)
+    (dir : List (Path × B)) (hnd : (dir.map (fun f => f.1)).Nodup) (hsub : ∀ f ∈ (assemble c g shard ns es m).files, f ∈ dir)
+    (hN : (ns.map (fun n => n.id)).Nodup)
+    (hE : ∀ e ∈ es, e.src ∈ ns.map (fun n => n.id) ∧ e.dst ∈ ns.map (fun n => n.id)) :
+    verifyFragments c dir (assemble c g shard ns es m).manifest = .ok () := by
+  have hids : (ns.map Node.toRec).map (fun r => r.id) = ns.map (fun n => n.id) := toRec_ids ns
+  have hnr : nodeRecs ((shards shard (ns.map Node.toRec)).map Content.nodes ++ (shards shard (es.map Edge.toRec)).map Content.edges)
+      = ns.map Node.toRec := by rw [nodeRecs_mixed, shards_flatten]
+  have her : edgeRecs ((shards shard (ns.map Node.toRec)).map Content.nodes ++ (shards shard (es.map Edge.toRec)).map Content.edges)
+      = es.map Edge.toRec := by rw [edgeRecs_mixed, shards_flatten]
+  unfold verifyFragments
+  rw [readAll_assemble_in c g shard ns es m true dir hnd hsub]
+  simp only [hnr, her, hids]
+  rw [hasDup_false_of_nodup _ hN]
+  have : (es.map Edge.toRec).all (fun e => (ns.map (fun n => n.id)).contains e.src && (ns.map (fun n => n.id)).contains e.dst) = true := by
+    rw [List.all_eq_true]
+    intro r hr
+    obtain ⟨e, he, rfl⟩ := List.mem_map.mp hr
+    have := hE e he
+    simp only [Edge.toRec, Bool.and_eq_true, List.contains_iff_mem]
+    exact this
+  simp only [Bool.false_eq_true, if_false]
+  rw [if_pos this]
+
+/-- the load pass of what `dumpGraph` assembled, into an empty target, for any creation counters -/
+theorem loadGraph_assemble_in [DecidableEq D] (c : Codec P B D) (g : Graph P) (shard batch : Nat)
     (ns : List (Node P)) (es : List (Edge P)) (m : Metrics) (alloc allocE : Nat → Nat) (nc ec : Nat)
+    (dir : List (Path × B)) (hnd : (dir.map (fun f => f.1)).Nodup) (hsub : ∀ f ∈ (assemble c g shard ns es m).files, f ∈ dir)
     (hN : (ns.map (fun n => n.id)).Nodup)
     (hE : ∀ e ∈ es, e.src ∈ ns.map (fun n => n.id) ∧ e.dst ∈ ns.map (fun n => n.id))
     (hcn : ns.length = g.nodes.length) (hce : es.length = g.edges.length) :
-    load c (assemble c g shard ns es m) batch alloc allocE { nodes := [], edges := [], nodeCtr := nc, edgeCtr := ec } =
+    loadGraph c dir (assemble c g shard ns es m).manifest batch alloc allocE { nodes := [], edges := [], nodeCtr := nc, edgeCtr := ec } =
       .ok ({ nodes := newNodes alloc nc (ns.map Node.toRec),
              edges := newEdges allocE (phiOf (newMap alloc nc (ns.map Node.toRec))) ec (es.map Edge.toRec),
              nodeCtr := nc + ns.length, edgeCtr := ec + es.length },
@@ -828,27 +860,8 @@ theorem load_assemble [DecidableEq D] (c : Codec P B D) (g : Graph P) (shard bat
       = ns.map Node.toRec := by rw [nodeRecs_mixed, shards_flatten]
   have her : edgeRecs ((shards shard (ns.map Node.toRec)).map Content.nodes ++ (shards shard (es.map Edge.toRec)).map Content.edges)
       = es.map Edge.toRec := by rw [edgeRecs_mixed, shards_flatten]
-  -- verification pass
-  have hv : verifyFragments c (assemble c g shard ns es m).files (assemble c g shard ns es m).manifest = .ok () := by
-    unfold verifyFragments
-    rw [readAll_assemble]
-    simp only [hnr, her, hids]
-    rw [hasDup_false_of_nodup _ hN]
-    have : (es.map Edge.toRec).all (fun e => (ns.map (fun n => n.id)).contains e.src && (ns.map (fun n => n.id)).contains e.dst) = true := by
-      rw [List.all_eq_true]
-      intro r hr
-      obtain ⟨e, he, rfl⟩ := List.mem_map.mp hr
-      have := hE e he
-      simp only [Edge.toRec, Bool.and_eq_true, List.contains_iff_mem]
-      exact this
-    simp only [Bool.false_eq_true, if_false]
-    rw [if_pos this]
-  unfold load
-  rw [hv]
-  simp only [List.length_nil, ne_eq, not_true_eq_false, or_self, if_false]
-  -- load pass
   unfold loadGraph
-  rw [readAll_assemble]
+  rw [readAll_assemble_in c g shard ns es m false dir hnd hsub]
   simp only [hnr, her]
   rw [createBatches_flatten, shards_flatten]
   rw [createBatch_spec alloc (ns.map Node.toRec) _ [] (by intro r _; rfl) (by rw [hids]; exact hN)]
@@ -864,6 +877,28 @@ theorem load_assemble [DecidableEq D] (c : Codec P B D) (g : Graph P) (shard bat
     have := hE e he
     rw [← hids] at this
     exact ⟨newMap_resolve_mem alloc _ nc _ this.1, newMap_resolve_mem alloc _ nc _ this.2⟩
+
+/-- `Load` of what `dumpGraph` assembled, into an empty target, for any creation counters -/
+theorem load_assemble [DecidableEq D] (c : Codec P B D) (g : Graph P) (shard batch : Nat)
+    (ns : List (Node P)) (es : List (Edge P)) (m : Metrics) (alloc allocE : Nat → Nat) (nc ec : Nat)
+    (hN : (ns.map (fun n => n.id)).Nodup)
+    (hE : ∀ e ∈ es, e.src ∈ ns.map (fun n => n.id) ∧ e.dst ∈ ns.map (fun n => n.id))
+    (hcn : ns.length = g.nodes.length) (hce : es.length = g.edges.length) :
+    load c (assemble c g shard ns es m) batch alloc allocE { nodes := [], edges := [], nodeCtr := nc, edgeCtr := ec } =
+      .ok ({ nodes := newNodes alloc nc (ns.map Node.toRec),
+             edges := newEdges allocE (phiOf (newMap alloc nc (ns.map Node.toRec))) ec (es.map Edge.toRec),
+             nodeCtr := nc + ns.length, edgeCtr := ec + es.length },
+           newMap alloc nc (ns.map Node.toRec)) := by
+  have hnd := assemble_paths_nodup c g shard ns es m
+  unfold load loadIn
+  rw [verify_assemble_in c g shard ns es m _ hnd (fun _ h => h) hN hE]
+  simp only [List.length_nil, ne_eq, not_true_eq_false, or_self, if_false]
+  exact loadGraph_assemble_in c g shard batch ns es m alloc allocE nc ec _ hnd (fun _ h => h) hN hE hcn hce
+
+theorem newMap_keys (alloc : Nat → Nat) : ∀ (rs : List (NodeRec P)) (k : Nat), (newMap alloc k rs).map (fun p => p.1) = rs.map (fun r => r.id) := by
+  intro rs; induction rs with
+  | nil => intro k; rfl
+  | cons r rs ih => intro k; simp [newMap, ih]
 
 end LoadSec
 
